@@ -1058,6 +1058,13 @@ macro_rules! rel_quat {
             if $r.below(3) == 0 { q1 = -q1; }
             let rs: Vec<Value> = (0..=8).map(|j| wq(&q0.slerp(q1, j as $S / 8.0))).collect();
             $o.emit(json!({"k": "rel", "op": "slerp8", "f": $fm, "ty": ty, "q0": wq(&q0), "q1": wq(&q1), "r": rs}));
+            // nearly equal but distinct rotations (the linear fallback of slerp): the end point is still the target, not the start
+            {
+                let tiny: $S = [6.0e-4, 2.5e-4, 9.0e-5][$r.below(3) as usize];
+                let qn = ($Q::from_axis_angle(axis, tiny) * q0).normalize();
+                let rs: Vec<Value> = (0..=8).map(|j| wq(&q0.slerp(qn, j as $S / 8.0))).collect();
+                $o.emit(json!({"k": "rel", "op": "slerp8", "f": $fm, "ty": ty, "sp": "nearly equal rotations", "q0": wq(&q0), "q1": wq(&qn), "r": rs}));
+            }
             // extrapolation to integer parameters (both signs, up to 12 steps): the arguments of the sines leave [-pi, pi]
             {
                 let q1p = if q0.dot(q1) < 0.0 { -q1 } else { q1 };
